@@ -578,6 +578,50 @@ def r5(ctx):
                             vals.append(st[2][1][1].get("v"))
                 ok = "false" in vals and "true" not in vals
         ctx.ob("R5", "match_multi_var rejects on an unequal pair", ok, "a pair for which does_node_match_exactly is false ends the comparison with false", where=mm.loc())
+        # "not bound yet" (anything is accepted) must mean: the key is absent.  A variable bound to ZERO nodes is bound.
+        mmi = prog.inlined(mm)
+        looks = [c for c in mmi.calls if c.bb in mmi.live_blocks and c.name in ("get", "contains_key", "get_key_value", "entry") and c.args and
+                 any(o.kind == "param" and o.ref == 1 and "multi_matched" in field_path(o.proj) for o in deep_roots(prog, mmi, c.args[0], TRANSPARENT))]
+        arms = None
+        for c in looks:
+            arms = option_arms(mmi, c) if c.name != "contains_key" else None
+            if c.name == "contains_key":
+                ba = bool_arms(mmi, c)
+                arms = {"some": [ba["true"]], "none": [ba["false"]]} if ba else None
+            if arms and arms["some"] and arms["none"]:
+                break
+        ok = bool(arms and arms["some"] and arms["none"])
+        ctx.ob("R5", "match_multi_var/unbound means key absent", ok,
+               "the existing binding is looked up in multi_matched and the comparison is skipped only on the lookup's miss arm" if ok else
+               "match_multi_var does not branch on a key lookup in multi_matched (lookups found: %s): 'never bound' cannot be told from 'bound to zero nodes', "
+               "so after `$$$A` matched nothing a second `$$$A` accepts anything" % [c.name for c in looks], where=mm.loc())
+        if ok:
+            nexts = {"bound": [], "cand": []}
+            for c in mmi.calls:
+                if c.name != "next" or not c.args or c.bb not in mmi.live_blocks:
+                    continue
+                _, leaves = iter_chain(prog, mmi, c.args[0])
+                for lf, o in leaves:
+                    if lf is mmi and o.kind == "param" and o.ref == 3:
+                        nexts["cand"].append(c.bb)
+                    if o.kind == "call" and (o.ref in looks or any(r.kind == "call" and r.ref in looks for r in deep_roots(prog, lf, o.ref.args[0], TRANSPARENT) if o.ref.args)):
+                        nexts["bound"].append(c.bb)
+                    if lf is mmi and o.kind == "param" and o.ref == 1 and "multi_matched" in field_path(o.proj):
+                        nexts["bound"].append(c.bb)
+            if nexts["bound"] and nexts["cand"]:
+                region = set()
+                for sb in arms["some"]:
+                    region |= set(mmi.reachable_from(sb, stop=arms["none"]))
+                bad = []
+                for rb in sorted(region):
+                    for st in mmi.blocks[rb]["s"]:
+                        if st[0] == "A" and st[2][0] == "use" and st[2][1][0] == "k" and st[2][1][1].get("ty") == "bool" and st[2][1][1].get("v") == "true" and mmi.locals[st[1][0]] == "bool":
+                            if not (any(mmi.dominates(n, rb) for n in nexts["bound"]) and any(mmi.dominates(n, rb) for n in nexts["cand"])):
+                                bad.append(mmi.loc(st[3]))
+                ctx.ob("R5", "match_multi_var/bound: true only after both sequences are exhausted", not bad,
+                       "on the bound arm `true` is produced only after next() was taken from the bound nodes and from the candidates" if not bad else
+                       "on the bound arm the function answers true without having advanced both sequences (%s): a bound `$$$A` accepts candidates it was never compared with" % bad[:3],
+                       where=mm.loc())
 
 
 AGG_TY = re.compile(r"^&mut impl Aggregator<")
